@@ -7,6 +7,7 @@ import RsslVerif.Lemmas.MacroHang
 import RsslVerif.Lemmas.MacroTameSpec
 import RsslVerif.Lemmas.MacroTameRun
 import RsslVerif.Lemmas.MacroPaste
+import RsslVerif.Lemmas.MacroParseWF
 /-!
 # C12 — macro expansion and inclusion equal reference textual substitution
 
@@ -272,6 +273,61 @@ example :
     applyEvents [] evs = [a2] ∧ lookup evs "A" = some a2 ∧ lookup evs "B" = none := by
   decide
 
+
+/-- **directive_takes_effect_from_its_line.** Redefinition and `#undef` take effect from their line onward: the text
+lines before a `#define` / `#undef` line (collected in `active_tokens`) are expanded with the macro list as it was
+before the directive (`flush`), the directive edits the list (`doDefine` / `doUndef`: `define_undef_scoping`), and
+every line after it is processed with the edited list and an empty `active_tokens`. -/
+theorem directive_takes_effect_from_its_line (inc : String → State → Except Err State) (cur : String)
+    (s : State × List PTok) (pre post : List Line) (cmd : List PTok) :
+    (foldLines inc cur s (pre ++ Line.define cmd :: post) =
+      match foldLines inc cur s pre with
+      | .error e => .error e
+      | .ok (st, active) =>
+        match flush st active with
+        | .error e => .error e
+        | .ok st' =>
+          match doDefine st'.macros cmd with
+          | .error e => .error e
+          | .ok ms => foldLines inc cur ({ st' with macros := ms }, []) post) ∧
+    (foldLines inc cur s (pre ++ Line.undef cmd :: post) =
+      match foldLines inc cur s pre with
+      | .error e => .error e
+      | .ok (st, active) =>
+        match flush st active with
+        | .error e => .error e
+        | .ok st' =>
+          match doUndef st'.macros cmd with
+          | .error e => .error e
+          | .ok ms => foldLines inc cur ({ st' with macros := ms }, []) post) := by
+  constructor
+  · rw [foldLines_append]
+    cases foldLines inc cur s pre with
+    | error e => rfl
+    | ok s1 =>
+      obtain ⟨st, active⟩ := s1
+      simp only [foldLines, stepLine]
+      cases flush st active with
+      | error e => rfl
+      | ok st' =>
+        simp only
+        cases doDefine st'.macros cmd with
+        | error e => rfl
+        | ok ms => rfl
+  · rw [foldLines_append]
+    cases foldLines inc cur s pre with
+    | error e => rfl
+    | ok s1 =>
+      obtain ⟨st, active⟩ := s1
+      simp only [foldLines, stepLine]
+      cases flush st active with
+      | error e => rfl
+      | ok st' =>
+        simp only
+        cases doUndef st'.macros cmd with
+        | error e => rfl
+        | ok ms => rfl
+
 /-! ## API-level defines -/
 
 /-- **api_defines_equal_file_defines.** Defines passed through the API behave exactly like `#define` lines placed
@@ -298,6 +354,29 @@ theorem api_defines_equal_file_defines (inc : String → State → Except Err St
   cases initialMacros [] api with
   | error e => rfl
   | ok ms => simp only [fileStart_of_ne_nil hne]
+
+
+/-- **api_defines_equal_file_defines_tokens.** The same for *every* entry file, the empty one included, on what the
+rest of the compiler sees: the macro list, the once-set and the tokens after `prepare_tokens` (which drops white
+space -- the only difference for an empty entry file is the line end the lexer adds to an empty file). -/
+theorem api_defines_equal_file_defines_tokens (inc : String → State → Except Err State) (entry : String)
+    (api : List ApiDefine) (lines : List Line) :
+    (runInitial inc entry api lines).map (fun st => (st.macros, st.once, prepare st.out)) =
+      (runFile inc entry { macros := [], out := [], once := [] } (api.map defineLineOf ++ lines)).map
+        (fun st => (st.macros, st.once, prepare st.out)) := by
+  cases lines with
+  | cons l ls => rw [api_defines_equal_file_defines inc entry api (l :: ls) (by simp)]
+  | nil =>
+    cases api with
+    | nil => rfl
+    | cons d ds =>
+      unfold runInitial runFile
+      rw [fileStart_of_ne_nil (by simp : (d :: ds).map defineLineOf ++ [] ≠ []), foldLines_defines]
+      cases initialMacros [] (d :: ds) with
+      | error e => rfl
+      | ok ms =>
+        simp only [foldLines, fileStart, flush, applyMacros_eol, applyMacros_nil, Except.map]
+        rfl
 
 /-- examples of the fixed behaviour (these were defects of the tree before 9f7cdb8, see notes/C12.md):
 a name listed twice -- the later entry replaces the earlier one; `##` in a value is the paste operator;
@@ -571,6 +650,15 @@ theorem trailing_function_name_is_invoked (env : List Entry) (P R0 blanks rest :
   early_scan_finds_trailing_name env P R0 blanks rest g b mj e lastFn hsel hfn hlast hnc hblank hparen
 
 
+
+/-- **parse_yields_wellformed_macro.** The hypothesis `WFMacro` of the refinement theorems is what `Macro::parse`
+guarantees: for a `#define` (or API define) whose tokens are as the lexer produces them (no `MacroArg`, no `Concat`;
+no identifier spelled `$…`, the reference's name of a parameter) and contain no `##`, the parsed macro is well formed:
+parameter indices are in range and occur only in function-like macros, `##` would have become `Concat`. -/
+theorem parse_yields_wellformed_macro (cmd : List PTok) (m : Macro) (h : parseDefine cmd = .ok m)
+    (hlex : RsslVerif.Lemmas.MacroParseWF.LexerTokens cmd) (hnohash : ∀ t ∈ cmd, t.tok ≠ .hashhash) : WFMacro m :=
+  RsslVerif.Lemmas.MacroParseWF.parseDefine_wf cmd m h hlex hnohash
+
 /-! ## `##` -/
 
 /-- **paste_is_single_token.** `##` pastes its neighbours into one token: in a text whose other tokens start no
@@ -680,6 +768,13 @@ theorem include_is_paste (h : Handler) (fuel : Nat) (cur f : String) (lines pre 
         | ok st4 =>
           simp only [hfl3] at hrun ⊢
           exact hrun
+
+
+/-- **include_of_empty_file.** The case `include_is_paste` leaves out: a file without lines contributes exactly the
+line end the lexer adds to an empty file (white space: nothing after `prepare_tokens`), no macro, no once-mark. -/
+theorem include_of_empty_file (h : Handler) (fuel : Nat) (f : String) (st : State) (hload : h f = some []) :
+    includeFile h (fuel + 1) f st = .ok { st with out := st.out ++ [eol] } := by
+  simp only [includeFile, hload, runFile, fileStart, foldLines, flush, applyMacros_eol, ite_self]
 
 /-- **pragma_once_once.** Once a file with a top-level `#pragma once` line has been processed, it is in the once-set,
 it stays there for the rest of the compilation (the set only grows, through every nested include), and every later
